@@ -481,10 +481,7 @@ def check_summaries(ctx, cls, obj, taxa, fresh, built, t, case):
         try:
             require(isinstance(r, numpy.ndarray) and r.shape == (t,) and r.dtype.kind in "iu", q + ":shape", lambda: f"returned {r!r}")
             for c in range(t):
-                if cols[c]["all_nan"] and n > 0:
-                    acc = cols[c][fn]
-                else:
-                    acc = cols[c][fn]
+                acc = cols[c][fn]
                 require(int(r[c]) in acc, f"{q}:{'mismatch:after:' + built if fresh else 'stale-after-inplace-edit'}",
                         lambda: f"trait {c}: {fn}() = {int(r[c])}, raw values {[row[c] for row in R.raw_rows(taxa)]} have it at {sorted(acc)}")
         except Violation as v:
